@@ -400,6 +400,8 @@ func runC17(c *Ctx) {
 	if pf := c.producerFrame(); r.Anchor("R8", "the receive goroutine that feeds the inbound queue", pf != nil) {
 		c.handoverRule("R8", pf.Member)
 	}
+	r.Rule("R9", "switching tracking on starts from the current nick: every non-nil value stored to the client's tracker field is the result of state.NewTracker(Config.Me.Nick) called in the same function - a tracker kept from before (whose own record still has the nick of that time) is never put back into service")
+	c.trackerInstalledFreshRule("R9")
 	r.Rule("R5", "the built-in handlers that keep the nick current (internal table: 001, 433, NICK) stay registered for the life of the client: no Remover obtained by registering an internal-table handler is ever invoked, whichever way tracking is switched")
 	c.trackerRules(map[string]string{"R3": "R4", "R7": "R4"})
 	c.positionalSplitRule("R6")
@@ -685,6 +687,59 @@ func runC17(c *Ctx) {
 					why = fmt.Sprintf("prefix old[:len-1]=%v; last byte < 0x80: %v (%s)", okHi, okCh, whyCh)
 				}
 			}
+			if cvS, isCvS := v.(*ssa.Convert); isCvS && !okS {
+				// the same on a copy of the bytes: string(b) with b = []byte(old), whose only writes replace
+				// b[len-1] by a byte < 0x80
+				if b, isB2 := cvS.X.(*ssa.Convert); isB2 && b.X == ssa.Value(dn.Params[0]) {
+					okS, why = true, "copy of old's bytes with the last one replaced by an ASCII byte"
+					isLenMinus1 := func(idx ssa.Value) bool {
+						bo2, ok := idx.(*ssa.BinOp)
+						if !ok || bo2.Op != token.SUB {
+							return false
+						}
+						k, isK := bo2.Y.(*ssa.Const)
+						if !isK || k.Value == nil || k.Value.String() != "1" {
+							return false
+						}
+						call, isC := bo2.X.(*ssa.Call)
+						if !isC || !c.isLenCall(call) {
+							return false
+						}
+						return call.Call.Args[0] == ssa.Value(b) || call.Call.Args[0] == ssa.Value(dn.Params[0])
+					}
+					for _, ref := range *b.Referrers() {
+						switch t := ref.(type) {
+						case *ssa.DebugRef:
+						case *ssa.Convert:
+							if t != cvS {
+								okS, why = false, "the byte copy is converted elsewhere"
+							}
+						case *ssa.Call:
+							if !c.isLenCall(t) {
+								okS, why = false, "the byte copy is passed to "+t.String()
+							}
+						case *ssa.IndexAddr:
+							if !isLenMinus1(t.Index) {
+								okS, why = false, "a byte other than the last one is addressed at "+c.InstrPos(t)
+							}
+							for _, r2 := range *t.Referrers() {
+								st, isSt := r2.(*ssa.Store)
+								if !isSt {
+									continue
+								}
+								okCh, whyCh := p.ProveAt(st, func(fc *factCtx) []Lin {
+									return []Lin{leExpr(fc.iexpr(st.Val), constLin(127))}
+								})
+								if !okCh {
+									okS, why = false, "the byte stored at "+c.InstrPos(st)+" is not proved < 0x80: "+whyCh
+								}
+							}
+						default:
+							okS, why = false, "the byte copy is used by "+ref.String()
+						}
+					}
+				}
+			}
 			r.Add("R3", fmt.Sprintf("return#%d", nRet), c.InstrPos(rt), c.FuncKey(dn), "same length, same prefix, one ASCII byte appended", okS, why)
 		})
 		r.Floor("R3", "returns of DefaultNewNick", nRet, 2)
@@ -741,6 +796,8 @@ func runC18(c *Ctx) {
 	r.Rule("R4", "the ping goroutine is spawned exactly under PingFreq > 0; it pings on each tick of a ticker of period PingFreq")
 	r.Rule("R10", "every PONG (and every registration line) handed to Raw reaches the send goroutine: Raw enqueues each line by a plain blocking send in its own body on every path (shared with C09.R1) - a Raw that drops lines when the queue is full leaves a server PING unanswered under load")
 	c.rawSenderRule("R10")
+	r.Rule("R11", "... and is written when its turn comes: in the send goroutine every line received from the outbound queue is handed, unmodified and exactly once per receive, to the write function and used for nothing else (shared with C09.R3) - a sender that holds lines back by their verb (say, all but the registration commands until 001) leaves a PING sent during registration unanswered")
+	c.senderForwards("R11", "R11")
 	r.Rule("R9", "PINGs of its own exactly when PingFreq is positive: the library never stores to Config.PingFreq of an existing Config (only while a Config is being constructed), so a configured 0 stays 0 at connect time")
 	r.Rule("R8", "PASS is sent exactly when the application set a password: inside the library Config.Pass of an existing Config is only ever stored with a value the API caller passed in (ConnectTo's argument) - never cleared or rewritten by the library")
 	r.Rule("R5", "the registration lines are the first the new connection sends: every successful connect starts from a newly made outbound (and inbound) queue on every path, so nothing queued during or before an outage precedes or duplicates PASS/NICK/USER (shared with C07.R4)")
@@ -2924,4 +2981,59 @@ func (c *Ctx) capHasRule(rule string) {
 	}
 	r.Add(rule, "cap-has-no-search", c.Pos(has.Pos()), c.FuncKey(has), "Has does not search the set", loops == 0, fmt.Sprintf("%d loops", loops))
 	r.Floor(rule, "returns of the capability set's Has", n, 1)
+}
+
+// trackerInstalledFreshRule: every tracker the client installs is a new one
+// made for the nick the client has at that moment: each store of a non-nil
+// value to the client's tracker field stores the result of state.NewTracker
+// called, in the same function, with Config.Me.Nick. A kept tracker that is
+// put back into service remembers the nick it was made for - a nick change
+// made while tracking was off is lost, and every later own NICK line fails.
+func (c *Ctx) trackerInstalledFreshRule(rule string) {
+	r, a := c.R, c.A
+	n := 0
+	for _, fn := range c.clientFuncs() {
+		funcInstrs(fn, func(in ssa.Instruction) {
+			st, ok := in.(*ssa.Store)
+			if !ok {
+				return
+			}
+			fv, _ := fieldOf(st.Addr)
+			if fv == nil || fv != a.St {
+				return
+			}
+			if isNilConst(st.Val) {
+				return
+			}
+			n++
+			okS, why := true, "NewTracker(Config.Me.Nick)"
+			for _, o := range c.originsLocal(st.Val) {
+				for {
+					if mi, isM := o.(*ssa.MakeInterface); isM {
+						o = mi.X
+					} else if ci, isCI := o.(*ssa.ChangeInterface); isCI {
+						o = ci.X
+					} else {
+						break
+					}
+				}
+				call, isC := o.(*ssa.Call)
+				if !isC || call.Call.StaticCallee() == nil || call.Call.StaticCallee().Package() != c.State || call.Call.StaticCallee().Name() != "NewTracker" || len(call.Call.Args) != 1 {
+					okS, why = false, "installs "+o.String()+", not a tracker made here for the current nick"
+					continue
+				}
+				seeded := false
+				if f1, base := loadedField(call.Call.Args[0]); f1 != nil && isStringType(f1.Type()) {
+					if f2, _ := loadedField(base); f2 == a.CfgMe {
+						seeded = true
+					}
+				}
+				if !seeded {
+					okS, why = false, "the tracker is made for "+call.Call.Args[0].String()+", not Config.Me's nick"
+				}
+			}
+			r.Add(rule, fmt.Sprintf("tracker-install:%s#%d", c.FuncKey(fn), n), c.InstrPos(st), c.FuncKey(fn), "an installed tracker is new and made for the client's current nick", okS, why)
+		})
+	}
+	r.Floor(rule, "sites that install a tracker", n, 1)
 }
